@@ -866,7 +866,7 @@ fn sweep_many_types(ctx: &Ctx, thorough: bool) -> Tally {
 }
 
 /// leap-second zones with offsets at the ends of the i32 range (count-scale vs UTC-scale bounds differ by the correction)
-fn sweep_leap_extreme(ctx: &Ctx) -> Tally {
+pub fn sweep_leap_extreme(ctx: &Ctx) -> Tally {
     let cyc = ctx.cyc;
     let offs: [i32; 7] = [i32::MIN + 1, i32::MIN + 2, i32::MIN + 11, 0, 5, i32::MAX - 1, i32::MAX];
     let mut real: Vec<(i64, i32)> = vec![];
